@@ -120,6 +120,8 @@ type hist = {
   mutable tw_sizes : n list;               (* sizes of pending try_with slots *)
   mutable tw_slots : (n * n) list;         (* implementation side: (address, size) of pending slots *)
   mutable dead : bool;
+  mutable born_in_init : (n * n) list list; (* per pending initialiser: blocks allocated while it ran *)
+  mutable init_kept : (n * n) list;        (* blocks a failed initialiser allocated and kept *)
   uniform : n;                             (* 0, or the one alignment of a uniform history *)
   mutable ubytes : n;                      (* uniform history: bytes allocated since the last reset *)
 }
@@ -145,7 +147,7 @@ let new_hist (line : string) : hist =
   if not (cfg_okb k) then
     report_spec ~prop:"C04" ~pred:"cfg_ok" ~detail:("the_static_EMPTY_CHUNK_or_the_constants_do_not_meet_cfg_ok:eaddr=" ^ get "eaddr" ^ "_malign=" ^ get "malign");
   { k; b = fresh; held = []; live = []; p_ab = N0; p_abim = N0; p_cap = N0; p_chunks = [];
-    feat = []; sig_ = Buffer.create 256; tw_sizes = []; tw_slots = []; dead = false;
+    feat = []; sig_ = Buffer.create 256; tw_sizes = []; tw_slots = []; dead = false; born_in_init = []; init_kept = [];
     uniform = (try n_of_string (get "uniform") with Not_found -> N0); ubytes = N0 }
 
 let lay s a = { l_size = n_of_string s; l_align = n_of_string a }
@@ -329,16 +331,21 @@ let handle_op (h : hist) (line : string) =
         report_spec ~prop:"C09" ~pred:"err_changes_nothing" ~detail:ires
     end;
     (* liveness bookkeeping + C01 / C04 on every block handed out *)
-    if kind = "reset" || kind = "drop" then (h.live <- []; h.tw_slots <- []; h.tw_sizes <- []);
+    if kind = "reset" || kind = "drop" then (h.live <- []; h.tw_slots <- []; h.tw_sizes <- []; h.born_in_init <- []; h.init_kept <- []);
     (match kind with
      | "dealloc" -> (match mi.dies with Some d -> h.live <- remove_live d h.live | None -> ())
      | "twbegin" -> if impl_ok then h.tw_sizes <- (match mi.mop with OTwBegin l -> l.l_size | _ -> N0) :: h.tw_sizes
      | _ -> ());
     let tw_done_ok = (if kind = "twend" && impl_ok then (match h.tw_sizes with sz :: _ -> Some sz | [] -> None) else None) in
     let via_allocator = (kind = "grow" || kind = "shrink" || (kind = "alloc" && List.mem "allocate" args)) in
+    let overlaps (a, sa) (b, sb) =
+      neq_zero sa && neq_zero sb && N.ltb a (N.add b sb) && N.ltb b (N.add a sa) in
     let check_block p size align =
       if not (sp_block_ok k h.held h.live p size) then begin
         report_spec ~prop:"C01" ~pred:"sp_block_ok" ~detail:(Printf.sprintf "p=%s size=%s" (string_of_n p) (string_of_n size));
+        (* C11: a block that a failed initialiser allocated and kept is being handed out again *)
+        if List.exists (fun kb -> List.mem kb h.live && overlaps kb (p, size)) h.init_kept then
+          report_spec ~prop:"C11" ~pred:"kept_blocks_stay_valid" ~detail:(Printf.sprintf "p=%s size=%s" (string_of_n p) (string_of_n size));
         (* every block in these histories may have been through Allocator::{grow,shrink,deallocate} *)
         report_spec ~prop:"C12" ~pred:"block_fits_and_is_disjoint" ~detail:(Printf.sprintf "p=%s size=%s" (string_of_n p) (string_of_n size))
       end;
@@ -351,21 +358,28 @@ let handle_op (h : hist) (line : string) =
      | ("alloc" | "grow" | "shrink" | "realloc"), Some p, Some (size, align) ->
        (match mi.dies with Some d -> h.live <- remove_live d h.live | None -> ());
        check_block p size align;
-       h.live <- (p, size) :: h.live
+       h.live <- (p, size) :: h.live;
+       (match h.born_in_init with l :: rest -> h.born_in_init <- ((p, size) :: l) :: rest | [] -> ())
      | "twbegin", Some p, _ ->
        (match mi.mop with
         | OTwBegin l ->
           check_block p l.l_size l.l_align;
           (* the reserved slot is off limits for every other block from now on *)
           h.live <- (p, l.l_size) :: h.live;
-          h.tw_slots <- (p, l.l_size) :: h.tw_slots
+          h.tw_slots <- (p, l.l_size) :: h.tw_slots;
+          h.born_in_init <- [] :: h.born_in_init
         | _ -> ())
      | "twend", _, _ ->
        (match h.tw_sizes, h.tw_slots with
         | _ :: rest, slot :: srest ->
           h.tw_sizes <- rest; h.tw_slots <- srest;
           (* on Err the slot goes away; on Ok it stays the client's *)
-          if not impl_ok then h.live <- remove_live slot h.live
+          if not impl_ok then h.live <- remove_live slot h.live;
+          (match h.born_in_init with
+           | mine :: outer ->
+             if not impl_ok then h.init_kept <- mine @ h.init_kept;
+             h.born_in_init <- (match outer with o :: r -> (mine @ o) :: r | [] -> [])
+           | [] -> ())
         | _ -> ())
      | _ -> ());
     (* C10, byte-exact clause, in uniform histories *)
